@@ -241,8 +241,9 @@ def r06_3(chk, tier):
             cmp_ = G.comparison(nd.ast)
             arg = A.text(A.strip((c.get('args') or [None])[0], casts=True))
             want_arg = 'next_stringref_' if enc else 'stringref_map_stack_.back().size()'
+            lhs = A.strip(cmp_[1], casts=True) if cmp_ is not None else None
             ok_cmp = cmp_ is not None and cmp_[0] == '>=' and any(y is c for y in A.walk(cmp_[2])) and \
-                     A.callee_name(A.strip(cmp_[1], casts=True)) in ('size', 'length')
+                     (A.callee_name(lhs) in ('size', 'length') or (lhs is not None and lhs.get('k') == 'DeclRefExpr' and lhs.get('n') in ('length', 'size', 'len')))
             te = [e for e in nd.succ if e.label is True]
             appends = False
             if te:
@@ -250,6 +251,8 @@ def r06_3(chk, tier):
                     if isinstance(x.ast, dict):
                         for cc in A.calls_in(x.ast):
                             if A.callee_name(cc) in ('emplace', 'emplace_back', 'push_back') and ('stringref' in A.text(cc.get('obj')) ): appends = True
+                        # a string that is never referenced still consumes an index: the counter advances without a table entry
+                        if enc and any(y.get('k') == 'UnaryOperator' and y.get('op') == '++' and (A.strip(y.get('sub'), casts=True) or {}).get('n') == 'next_stringref_' for y in A.walk_no_lambda(x.ast)): appends = True
             if enc: n_enc += 1
             else: n_dec += 1
             if ok_cmp and arg == want_arg and appends:
@@ -258,6 +261,50 @@ def r06_3(chk, tier):
                 chk.fail('R06.3', site, f['file'], c.get('l'), 'string reference eligibility in %s is `%s` (table append under it: %s); both sides must test '
                          '`length >= min_length_for_stringref(%s)` and append under it' % (f['n'], A.text(nd.ast)[:70], appends, want_arg), None, f['q'])
     chk.require(n_enc >= 2 and n_dec >= 3, 'R06.3: stringref tests found: encoder %d, decoder %d' % (n_enc, n_dec))
+
+def r06_5(chk, tier):
+    """Every definite-length string the CBOR encoder writes is accounted for in the stringref numbering."""
+    from .. import cfg as C, guards as G
+    chk.rule('R06.5', 'CBOR stringref accounting: every byte/text string header the encoder writes (write_byte_string, write_utf8_string, the '
+                      'bignum payload header) is preceded by the index accounting (registration with next_stringref_++, or '
+                      'count_unreferenced_byte_string) or sits on the branch where the string is too short / packing is off; a decoder enters '
+                      'every sufficiently long string of the namespace in its table, tagged or not', floor=12)
+    facts = F.load(['cbor'], tier)
+    if 'cbor' not in chk.units: chk.units.append('cbor')
+    PRIMS = ('write_byte_string', 'write_utf8_string', 'write_unreferenced_byte_string', 'count_unreferenced_byte_string', 'write_type_and_length')
+    n = 0; seen = set()
+    for fn in facts.functions:
+        if fn.get('dep') or fn.get('body') is None or not fn['file'].endswith('cbor_encoder.hpp') or 'basic_cbor_encoder' not in (fn.get('cls') or ''): continue
+        if fn['n'] in PRIMS or (fn['file'], fn['l']) in seen: continue
+        writes = []
+        g = None
+        for c in A.calls_in(fn['body'], no_lambda=True):
+            nm = A.callee_name(c)
+            if nm in ('write_byte_string', 'write_utf8_string', 'write_unreferenced_byte_string'): writes.append((c, nm))
+            elif nm == 'write_type_and_length' and A.const((c.get('args') or [None])[0]) in (0x40, 0x60): writes.append((c, 'header 0x%02x' % A.const(c['args'][0])))
+            elif nm == 'native_to_big' and c.get('args'):
+                a0 = A.strip(c['args'][0], casts=True)
+                if a0 is not None and a0.get('k') == 'BinaryOperator' and a0.get('op') == '+' and A.const(a0.get('lhs')) in (0x40, 0x60): writes.append((c, 'short header 0x%02x+n' % A.const(a0['lhs'])))
+        if not writes: continue
+        seen.add((fn['file'], fn['l']))
+        chk.analysed(fn)
+        g = C.CFG(fn['body'])
+        acct = []
+        for nd in g.rpo:
+            if nd.kind not in ('stmt', 'cond') or not isinstance(nd.ast, dict): continue
+            if any(A.callee_name(c) in ('count_unreferenced_byte_string', 'write_unreferenced_byte_string') for c in A.calls_in(nd.ast)): acct.append(nd)
+            if any(y.get('k') == 'UnaryOperator' and y.get('op') == '++' and (A.strip(y.get('sub'), casts=True) or {}).get('n') == 'next_stringref_' for y in A.walk_no_lambda(nd.ast)): acct.append(nd)
+        for i, (c, what) in enumerate(writes):
+            nd = g.node_of(c)
+            n += 1
+            site = U.site(fn, 'string write#%d' % (i + 1))
+            # every path to the write passes the accounting, or leaves the eligibility test on its false side
+            exempt_edges = [e for e in g.rpo if e.kind == 'edge' and e.label is False and isinstance(e.ast, dict) and
+                            ('min_length_for_stringref' in A.text(e.ast) or A.text(e.ast).strip() == 'pack_strings_')]
+            ok = nd is not None and (nd in acct or not g.can_reach(g.entry, [nd], avoid=acct + exempt_edges))
+            if ok: chk.ok('R06.5', site, {'function': fn['n'], 'line': c.get('l')})
+            else: chk.fail('R06.5', site, fn['file'], c.get('l'), '%s writes a string (%s) at line %s without stringref accounting: with pack_strings a decoder gives this string an index the encoder does not count, and every later reference resolves to the wrong string' % (fn['n'], what, c.get('l')), None, fn['q'])
+    chk.require(n >= 12, 'R06.5: only %d string writes found in the CBOR encoder' % n)
 
 def r06_4(chk, tier):
     chk.rule('R06.4', 'CBOR tag symmetry: for every semantic tag the encoder writes as CBOR tag N on a text or byte string, the decoder maps '
@@ -513,6 +560,7 @@ def run(chk, tier, only_rule=None):
     ladders(chk, tier)
     r06_3(chk, tier)
     r06_4(chk, tier)
+    r06_5(chk, tier)
 
 def ladders(chk, tier):
     # ---- MessagePack
